@@ -296,6 +296,11 @@ func checkCanaryCreateOnce(c *Ctx, rule string) {
 
 // checkErrorDiscipline applies the error-fate analysis to every effectful call in the selected functions.
 func checkErrorDiscipline(c *Ctx, rule string, sel func(*ssa.Function) bool) {
+	checkErrorDisciplineF(c, rule, sel, nil)
+}
+
+// checkErrorDisciplineF additionally restricts the calls looked at (calleeSel == nil: all effectful calls).
+func checkErrorDisciplineF(c *Ctx, rule string, sel func(*ssa.Function) bool, calleeSel func(ssa.CallInstruction) bool) {
 	p := c.Prog
 	exempt := map[string]string{
 		// best-effort label patches: labels are re-derived on the next reconcile and readiness re-checks them
@@ -315,6 +320,9 @@ func checkErrorDiscipline(c *Ctx, rule string, sel func(*ssa.Function) bool) {
 			}
 			name := CalleeName(call.Common())
 			if !effectful(name) {
+				continue
+			}
+			if calleeSel != nil && !calleeSel(call) {
 				continue
 			}
 			root := fn
